@@ -843,6 +843,26 @@ impl Session {
                 }
                 Ok(Value::Array(out))
             }
+            "sample2" => {
+                // all-stop double sample: task states + a memory block, twice, `sleep_us` apart
+                let pid = self.proc_pid().or(self.last_pid).ok_or("no pid")?;
+                let a = get_u64(c, "addr")?;
+                let n = get_u64(c, "n")? as usize;
+                let sleep_us = c.get("sleep_us").and_then(|v| v.as_u64()).unwrap_or(2000);
+                let snap = |pid: i32| -> Value {
+                    let tids = raw::task_ids(pid);
+                    let tasks: Vec<Value> = tids
+                        .iter()
+                        .map(|t| json!([t, raw::task_state_settled(pid, *t, 3000).0.to_string()]))
+                        .collect();
+                    let pcs: Vec<Value> = tids.iter().map(|t| json!(raw::rip_of(*t))).collect();
+                    json!({"tasks": tasks, "pcs": pcs, "mem": raw::read_proc_mem(pid, a, n).map(|v| raw::hex(&v))})
+                };
+                let s1 = snap(pid);
+                std::thread::sleep(std::time::Duration::from_micros(sleep_us));
+                let s2 = snap(pid);
+                Ok(json!({"a": s1, "b": s2}))
+            }
             "probe" => Ok(probe_json()),
             x => Err(format!("unknown command {x}")),
         }
@@ -857,7 +877,10 @@ impl Session {
                 "tasks".into(),
                 Value::Array(
                     tids.iter()
-                        .map(|t| json!({"tid": t, "state": raw::task_state(pid, *t).to_string()}))
+                        .map(|t| {
+                            let (s, ms) = raw::task_state_settled(pid, *t, 3000);
+                            json!({"tid": t, "state": s.to_string(), "settle_ms": ms})
+                        })
                         .collect(),
                 ),
             );
@@ -954,6 +977,9 @@ fn main() {
         LAST_PANIC.with(|p| *p.borrow_mut() = Some(json!({"loc": loc, "msg": msg})));
     }));
 
+    if std::env::var("RUST_LOG").is_ok() {
+        let _ = env_logger::builder().format_timestamp_micros().try_init();
+    }
     rust::Environment::init(None);
 
     let mut s = Session {
